@@ -92,6 +92,10 @@ func (a *Application) providerProxyHandler(w http.ResponseWriter, r *http.Reques
 	}
 
 	if len(endpoints) == 0 {
+		if decision := routingRejection(pr); decision != nil {
+			a.writeRoutingRejection(w, pr, decision)
+			return
+		}
 		http.Error(w, fmt.Sprintf("No %s endpoints available", providerType), http.StatusNotFound)
 		return
 	}
